@@ -84,7 +84,10 @@ fn and_then_poll_from_state_a() {
             assert!(r == Out::Pending);
             assert!(calls(B) == 0 && fut_polls(B) == 0);
             assert!(fut_waker(A) == w);
-            assert!(matches!(f.state, State::A { .. }));
+            // the state invariant is re-established: still in state A WITH the shared pair (state_a() starts every
+            // harness from such a state; a poll that gives the pair up while stage one is pending breaks the next poll)
+            assert!(matches!(f.state, State::A { b: Some(_), .. }));
+            if let State::A { fut, .. } = &f.state { assert!(fut.id == A && !fut.done); }
         }
         Out::Err(e) => {
             assert!(r == Out::Err(e));
